@@ -3,7 +3,7 @@ import json
 
 import torch
 
-from ..extract import c17_settings
+from ..extract import c17_settings, c17_bodies
 
 
 def _load_classes(classes):
@@ -31,6 +31,8 @@ class Impl:
                       and not n.startswith("_")}
         self.bases = bases
         self.codes = {}
+        self.reader_fails = {}
+        self._t64, self._t32 = torch.zeros(1, dtype=torch.float64), torch.zeros(1, dtype=torch.float32)
         self.initial = [self.raw(i) for i in range(len(self.cls))]
         # which class attributes are the class's OWN at start (others are inherited from the base class): reset()
         # must not create own attributes, or a write to the base class attribute (a leak into every setting that
@@ -44,12 +46,17 @@ class Impl:
     def code(self, v, flag=False):
         if v is None:
             return "n"
-        if flag and isinstance(v, bool):
-            return "1" if v else "0"
+        if flag and (isinstance(v, bool) or not v):
+            return "1" if v else "0"  # every falsy state (False, 0, 0.0, "") is `off`; the spec side compares the real objects
         k = repr(v)
         if k not in self.codes:
             self.codes[k] = 10 + len(self.codes)
         return str(self.codes[k])
+
+    def _reader(self, ok, kind, msg):
+        """The reader class methods (`on` / `off` / `is_default` / `value`) must report the class attributes."""
+        if not ok and kind not in self.reader_fails:
+            self.reader_fails[kind] = msg
 
     def raw(self, i):
         c, m = self.cls[i], self.meta[i]
@@ -87,16 +94,23 @@ class Impl:
         a, b, d = self.raw(i)
         flag = m["base"] == "_feature_flag"
         if flag:
-            on = "T" if self.cls[i].on() else "F"
-            assert self.cls[i].off() == (not self.cls[i].on())
+            on = ("T" if self.cls[i].on() else "F") + ("D" if self.cls[i].is_default() else "d")
+            self._reader(self.cls[i].off() == (not self.cls[i].on()), "off", f"{m['name']}.off() is not `not on()`")
+            self._reader(self.cls[i].is_default() == (a is None), "is_default",
+                         f"{m['name']}.is_default() = {self.cls[i].is_default()} with _state = {a!r}")
+            self._reader(_same((self.cls[i].on(),), ((self.cls[i]._default if a is None else a),)), "on",
+                         f"{m['name']}.on() = {self.cls[i].on()!r} with _state = {a!r}, _default = {self.cls[i]._default!r}")
             b = None if b is None else 1
         else:
             on = "-"
             if m["base"] == "_value_context":
-                assert self.cls[i].value() == a or a != a
+                self._reader(_same((self.cls[i].value(),), (a,)), "value", f"{m['name']}.value() = {self.cls[i].value()!r}, attribute {a!r}")
             else:
-                assert self.cls[i].value(torch.float) == a and self.cls[i].value(torch.double) == b \
-                    and self.cls[i].value(torch.half) == d
+                got = tuple(self.cls[i].value(t) for t in (torch.float, torch.double, torch.half))
+                self._reader(_same(got, (a, b, d)), "value-dtype", f"{m['name']}.value(float/double/half) = {got}, attributes {(a, b, d)}")
+                # a tensor argument stands for its dtype
+                got = (self.cls[i].value(self._t64), self.cls[i].value(self._t32))
+                self._reader(_same(got, (b, a)), "value-tensor", f"{m['name']}.value(tensor f64 / f32) = {got}, attributes {(b, a)}")
         bs = ("n" if b is None else "1") if flag else self.code(b)
         return f"{self.code(a, flag)}|{bs}|{self.code(d)}|{on}"
 
@@ -155,8 +169,25 @@ def gen_history(rng, impl, length, malformed=False):
             o = active[-1] if rng.random() < 0.8 else rng.choice(active)
             active.remove(o)
             hist.append(("exit", o, rng.random() < 0.3))
-        elif r < 0.97:
+        elif r < 0.945:
+            if r < 0.93 and rng.random() < 0.8:
+                continue  # (fell through from an impossible enter / exit: mostly skip instead of flooding with pokes)
             hist.append(("poke", "deterministic_probes", rng.choice([None, 1])))
+        elif r < 0.975:
+            # class-level setter (`cls._set_state(v)` / `cls._set_value(...)`), also between enter and exit of live contexts
+            i = rng.choice(focus + [impl.idx["deterministic_probes"]])
+            base = impl.meta[i]["base"]
+            if base == "_feature_flag":
+                args = (rng.choice([True, False, None]),)
+            elif base == "_value_context":
+                args = (rng.choice(VALUES),)
+            else:
+                args = tuple(rng.choice([None, None, 1e-4, 0.25, 0.0]) for _ in range(3))
+            hist.append(("set", impl.meta[i]["name"], args))
+        elif r < 0.995 and any(isinstance(h, tuple) and h[0] == "newc" and h[1] not in active for h in hist):
+            # composite `__enter__` in which member number j raises (the object does not become active)
+            o = rng.choice([h[1] for h in hist if h[0] == "newc" and h[1] not in active])
+            hist.append(("enterfail", o, rng.randrange(3)))
         elif active:
             o = active.pop()
             hist.append(("exit", o, False))
@@ -165,9 +196,53 @@ def gen_history(rng, impl, length, malformed=False):
     return hist
 
 
-def run_history(impl, hist, want_lines=True):
-    """Run on the real library.  Returns (lean_lines, impl_states, spec_failures)."""
+class _Injected(Exception):
+    pass
+
+
+class _Boom:
+    """Stand-in for a composite's member whose `__enter__` raises."""
+
+    def __enter__(self):
+        raise _Injected("injected failure of a member's __enter__")
+
+    def __exit__(self, *args):
+        return False
+
+
+def _block(obj):
+    with obj:
+        yield
+
+
+def _in_thread(fn):
+    import threading
+    box = []
+
+    def tgt():
+        try:
+            box.append(("ok", fn()))
+        except BaseException as e:  # noqa
+            box.append(("exc", e))
+    t = threading.Thread(target=tgt)
+    t.start()
+    t.join()
+    if box[0][0] == "exc":
+        raise box[0][1]
+    return box[0][1]
+
+
+def run_history(impl, hist, want_lines=True, via="call"):
+    """Run on the real library.  Returns (lean_lines, impl_states, spec_failures).
+    via = "call": `__enter__` / `__exit__` called directly;  "with": every enter/exit goes through a real `with` statement
+    held by a generator frame (exceptional exit = exception thrown into the frame; it must propagate);
+    "thread": every enter/exit is executed on a fresh thread (the state is process-global: same model)."""
+    _drain()
     impl.reset()
+    gens = {}
+    comp_kw = {}
+    dirty = set()
+    run_history.dirty = dirty
     objs, parts, lines, states, fails = {}, {}, [], [], []
     fails_unmodelled = []
     desync = [False]
@@ -213,6 +288,7 @@ def run_history(impl, hist, want_lines=True):
             comp = impl.table_comps.get(name)
             obj = getattr(impl.S, name)(**kw)
             objs[o] = obj
+            comp_kw[o] = (name, kw)
             # part contexts as found on the object at run time (attributes, or containers of contexts)
             found = []
             for attr, v in vars(obj).items():
@@ -229,7 +305,7 @@ def run_history(impl, hist, want_lines=True):
                 emit(f"new {i} {serial[0]} {inst} n n")
             if comp is not None and sorted(a for a, _, _ in comp["parts"]) == sorted(byattr):
                 parts[o] = {"enter": [byattr[a] for a in comp["enter"]], "exit": [byattr[a] for a in comp["exit"]],
-                            "all": list(byattr.values()), "modelled": True}
+                            "all": list(byattr.values()), "modelled": True, "enter_attrs": list(comp["enter"])}
             else:  # the table does not describe this composite: property checks only, no model lines
                 parts[o] = {"enter": list(byattr.values()), "exit": list(byattr.values()), "all": list(byattr.values()),
                             "modelled": False}
@@ -242,8 +318,30 @@ def run_history(impl, hist, want_lines=True):
                 reentered.add(o)
             active_count[o] = active_count.get(o, 0) + 1
             before_enter[o] = {i: impl.setting_val(i) for i, _ in seq}
-            objs[o].__enter__()
+            if via == "with":
+                g = _block(objs[o])
+                _LIVE_GENS.append(g)
+                next(g)
+                gens.setdefault(o, []).append(g)
+            elif via == "thread":
+                _in_thread(objs[o].__enter__)
+            else:
+                objs[o].__enter__()
             touched = {i for i, _ in seq}
+            # a composite puts its documented constructor arguments in force (spec independent of the member objects)
+            if o in comp_kw:
+                name, kw = comp_kw[o]
+                if name == "fast_computations":
+                    want = tuple(kw.get(a, True) for a in ("covar_root_decomposition", "log_prob", "solves"))
+                    got = tuple(getattr(impl.S.fast_computations, a).on() for a in ("covar_root_decomposition", "log_prob", "solves"))
+                elif name == "linalg_dtypes":
+                    dflt = kw.get("default", torch.double)
+                    want = tuple(dflt if kw.get(a) is None else kw[a] for a in ("symeig", "cholesky"))
+                    got = (impl.S._linalg_dtype_symeig.value(), impl.S._linalg_dtype_cholesky.value())
+                else:
+                    want = got = ()
+                if not _same(want, got):
+                    fails.append((f"composite-args-not-in-force {name}{kw}: got {got} want {want}", ev))
             # "takes effect on entry": every slot the context names now holds the instance value
             pobjs = [objs[o]] if not isinstance(p, dict) else [w for w in _part_objects(objs[o], impl)]
             for po in pobjs:
@@ -272,13 +370,29 @@ def run_history(impl, hist, want_lines=True):
             o, exc = ev[1], ev[2]
             p = parts[o]
             seq = p["exit"] if isinstance(p, dict) else p
-            if exc:
+            if via == "with" and gens.get(o):
+                g = gens[o].pop()
+                r = False
+                try:
+                    if exc:
+                        g.throw(ValueError("boom"))
+                    else:
+                        next(g)
+                    r = exc  # an exceptional exit that ends normally: `__exit__` swallowed the exception
+                except StopIteration:
+                    r = exc
+                except ValueError:
+                    r = not exc
+            elif exc:
                 try:
                     raise ValueError("boom")
                 except ValueError as e:
-                    r = objs[o].__exit__(ValueError, e, e.__traceback__)
+                    ee = e
+                    r = (_in_thread(lambda: objs[o].__exit__(ValueError, ee, ee.__traceback__)) if via == "thread"
+                         else objs[o].__exit__(ValueError, e, e.__traceback__))
             else:
-                r = objs[o].__exit__(None, None, None)
+                r = (_in_thread(lambda: objs[o].__exit__(None, None, None)) if via == "thread"
+                     else objs[o].__exit__(None, None, None))
             if r:
                 fails.append(("exit-swallows-exception", ev))
             active_count[o] = active_count.get(o, 0) - 1
@@ -292,6 +406,58 @@ def run_history(impl, hist, want_lines=True):
                         fails.append((f"exit-did-not-restore {impl.meta[i]['name']}: got {impl.setting_val(i)} want {want}", ev))
             if active_count[o] <= 0:
                 reentered.discard(o)
+        elif ev[0] == "set":
+            _, name, args = ev
+            i = impl.idx[name]
+            base = impl.meta[i]["base"]
+            if base == "_feature_flag":
+                impl.cls[i]._set_state(*args)
+                emit(f"set {i} {impl.code(args[0], True)} n n")
+                want, got = tuple(args), impl.setting_val(i)
+            elif base == "_value_context":
+                impl.cls[i]._set_value(*args)
+                emit(f"set {i} {impl.code(args[0])} n n")
+                want, got = tuple(args), impl.setting_val(i)
+            else:
+                impl.cls[i]._set_value(*args)
+                emit(f"set {i} {' '.join(impl.code(v) for v in args)}")
+                want = tuple(w for w in args if w is not None)
+                got = tuple(c for w, c in zip(args, impl.setting_val(i)) if w is not None)
+            if not _same(want, got):
+                fails.append((f"class-setter-did-not-take-effect {name}: got {got} want {want}", ev))
+            touched = {i}
+            dirty.add(i)
+        elif ev[0] == "enterfail":
+            _, o, j = ev
+            p = parts[o]
+            if not (isinstance(p, dict) and p.get("modelled")):
+                raise KeyError("enterfail needs a composite described by the table")
+            seq, attrs = p["enter"], p["enter_attrs"]
+            j = min(j, len(seq) - 1)
+            real = getattr(objs[o], attrs[j])
+            setattr(objs[o], attrs[j], _Boom())
+            try:
+                try:
+                    if via == "with":
+                        with objs[o]:
+                            fails.append(("composite-body-ran-after-failed-enter", ev))
+                    else:
+                        objs[o].__enter__()
+                    fails.append(("composite-enter-swallowed-member-exception", ev))
+                except _Injected:
+                    pass
+            finally:
+                setattr(objs[o], attrs[j], real)
+            touched = {i for i, _ in seq[:j]}
+            dirty.update(touched)
+            # the code as it is: the first j members stay entered (known finding C17/composite-partial-enter);
+            # with notes/C17_fix_1.diff applied they are exited again, in member order
+            model_seq = [f"enter {i} {k}" for i, k in seq[:j]]
+            if impl.composite_enter_guarded:
+                model_seq += [f"exit {i} {k} 0" for i, k in seq[:j]]
+            for n_, line in enumerate(model_seq):
+                lines.append(line)
+                states.append(None if n_ < len(model_seq) - 1 else impl.state())
         elif ev[0] == "poke":
             i = impl.idx[ev[1]]
             impl.cls[i].probe_vectors = None if ev[2] is None else torch.zeros(1)
@@ -332,10 +498,12 @@ def well_nested(hist):
     return not stack
 
 
-def spec_fails(impl, hist):
-    _, _, fails = run_history(impl, hist)
+def spec_fails(impl, hist, via="call"):
+    _, _, fails = run_history(impl, hist, via=via)
     if well_nested(hist):
         for i in range(len(impl.cls)):
+            if i in run_history.dirty:
+                continue
             if impl.setting_val(i) != (impl.initial[i] if impl.meta[i]["base"] == "_dtype_value_context" else impl.initial[i][:1]):
                 fails.append((f"leak after well-nested history: {impl.meta[i]['name']} = {impl.setting_val(i)}", None))
     impl.reset()
@@ -383,70 +551,180 @@ def small_computation():
     return torch.cat([op.solve(b.unsqueeze(-1)).flatten(), iq.flatten(), ld.flatten()])
 
 
+_LIVE_GENS = []
+
+
+def _drain():
+    """Close generator frames still suspended inside a `with` block (left over by shrinking candidates), so that their
+    `__exit__` does not run at some later garbage collection."""
+    while _LIVE_GENS:
+        g = _LIVE_GENS.pop()
+        try:
+            g.close()
+        except BaseException:  # noqa
+            pass
+
+
+def _all_vals(impl):
+    return [impl.setting_val(i) for i in range(len(impl.cls))]
+
+
+def templates(impl):
+    """Fixed histories: (history, via, cell or None).  A cell makes the end-of-history identity check strict (every
+    setting must have its initial value) and names the violation."""
+    T = []
+    # the two defects fixed in the repo (must stay fixed)
+    T.append(([("new", 0, "max_cholesky_size", (5,)), ("new", 1, "max_cholesky_size", (7,)), ("enter", 1),
+               ("enter", 0), ("exit", 0, False), ("exit", 1, False)], "call", None))
+    T.append(([("new", 0, "cholesky_jitter", (None, None, 0.25)), ("enter", 0), ("exit", 0, False)], "call", None))
+    T.append(([("new", 0, "cholesky_jitter", (0.5, 0.5, 0.5)), ("new", 1, "cholesky_jitter", (0.0, 0.0, None)), ("enter", 0),
+               ("enter", 1), ("exit", 1, False), ("exit", 0, False)], "with", None))
+    T.append(([("new", 0, "max_cholesky_size", (0,)), ("new", 1, "cg_tolerance", (0.0,)), ("enter", 0), ("enter", 1),
+               ("exit", 1, True), ("exit", 0, False)], "with", None))
+    T.append(([("newc", 0, "fast_computations", {"solves": False}), ("new", 1, "_fast_solves", (True,)),
+               ("enter", 1), ("enter", 0), ("exit", 0, True), ("exit", 1, False)], "call", None))
+    # session 5 ------------------------------------------------------------------------------------------------
+    for via in ("call", "with", "thread"):
+        # the same object used for two consecutive blocks, with a class-level setter in between: each block restores
+        # the value in force at ITS entry
+        T.append(([("new", 0, "max_cg_iterations", (7,)), ("enter", 0), ("exit", 0, False), ("set", "max_cg_iterations", (50,)),
+                   ("enter", 0), ("exit", 0, True)], via, None))
+        # an object constructed INSIDE another block of the same setting, entered after that block ended
+        T.append(([("new", 0, "num_trace_samples", (3,)), ("enter", 0), ("new", 1, "num_trace_samples", (5,)), ("exit", 0, False),
+                   ("enter", 1), ("exit", 1, False)], via, f"C17/constructed-inside-other-block/value/via={via}"))
+        T.append(([("new", 0, "cholesky_jitter", (0.25, None, None)), ("enter", 0), ("new", 1, "cholesky_jitter", (None, 3.0, 0.0)),
+                   ("exit", 0, False), ("enter", 1), ("exit", 1, True)], via, f"C17/constructed-inside-other-block/dtype/via={via}"))
+        # explicit falsy / None values
+        T.append(([("new", 0, "debug", (False,)), ("new", 1, "debug", (None,)), ("new", 2, "debug", (0,)), ("enter", 0), ("enter", 1),
+                   ("enter", 2), ("exit", 2, False), ("exit", 1, False), ("exit", 0, False)], via, f"C17/falsy-and-none/flag/via={via}"))
+        T.append(([("new", 0, "max_preconditioner_size", (0,)), ("new", 1, "max_preconditioner_size", (None,)), ("enter", 0),
+                   ("enter", 1), ("exit", 1, True), ("exit", 0, False)], via, f"C17/falsy-and-none/value/via={via}"))
+        # deterministic_probes: every state write clears the probe cache; the flag itself is restored
+        T.append(([("new", 0, "deterministic_probes", (True,)), ("poke", "deterministic_probes", 1), ("enter", 0),
+                   ("poke", "deterministic_probes", 1), ("exit", 0, False), ("poke", "deterministic_probes", 1),
+                   ("set", "deterministic_probes", (None,))], via, None))
+        # composite used twice, and a composite nested in itself (different objects)
+        T.append(([("newc", 0, "fast_computations", {"covar_root_decomposition": False, "log_prob": False, "solves": False}),
+                   ("newc", 1, "fast_computations", {"log_prob": False}), ("enter", 0), ("enter", 1), ("exit", 1, False),
+                   ("exit", 0, True), ("enter", 0), ("exit", 0, False)], via, f"C17/composite-nested-and-reused/fast_computations/via={via}"))
+        T.append(([("newc", 0, "linalg_dtypes", {"default": torch.float}), ("newc", 1, "linalg_dtypes", {"symeig": torch.half}),
+                   ("enter", 0), ("enter", 1), ("exit", 1, True), ("exit", 0, False), ("enter", 1), ("exit", 1, False)],
+                  via, f"C17/composite-nested-and-reused/linalg_dtypes/via={via}"))
+    # composite `__enter__` whose member number j raises: the members entered before it must be restored
+    for name, kw in (("fast_computations", {"covar_root_decomposition": False, "log_prob": False, "solves": False}),
+                     ("linalg_dtypes", {"default": torch.float})):
+        n = len(impl.table_comps[name]["enter"]) if name in impl.table_comps else 0
+        for j in range(n):
+            for via in ("call", "with"):
+                T.append(([("newc", 0, name, kw), ("enterfail", 0, j)], via, f"C17/composite-partial-enter/{name}/fail_at={j}"))
+    return T
+
+
 def run(chk, histories=None):
     classes, composites = c17_settings.generate()
-    chk.rule = ("seed-random event histories (construct / enter / exit / exceptional exit / probe poke) over all setting "
-                "classes and both composites incl. pre-constructed, re-used, non-LIFO-exited objects; distinct = distinct "
-                "event sequence; non-trivial = at least one enter of a context whose value differs from the value in force")
-    chk.assumptions += ["Python attribute lookup / `with` protocol as documented", "values are compared through an injective coding"]
-    chk.prove("LinOp.Properties.C17", ["LinOp/C17", "LinOp/Generated/C17Table.lean", "LinOp/Core/Parse.lean", "LinOp/Core/Basic.lean"])
+    methods, readers, comp_methods = c17_bodies.generate()
+    chk.rule = ("seed-random event histories (construct / enter / exit / exceptional exit / probe poke / class-level setter / "
+                "composite enter with a failing member) over all setting classes and both composites incl. pre-constructed, "
+                "re-used, nested re-entered, non-LIFO-exited objects, each executed by direct calls, through real `with` "
+                "statements held by generator frames, or with every event on a fresh thread; plus fixed templates; distinct = "
+                "distinct (event sequence, execution mode); non-trivial = at least one enter of a context")
+    chk.assumptions += ["Python attribute lookup / `with` protocol as documented", "values are compared through an injective coding",
+                        "the settings are process-global class attributes (no thread-locals): threads are modelled as interleavings"]
+    chk.prove("LinOp.Properties.C17", ["LinOp/C17", "LinOp/Generated/C17Table.lean", "LinOp/Generated/C17Bodies.lean",
+                                       "LinOp/Core/Parse.lean", "LinOp/Core/Basic.lean"])
     impl = Impl(classes, composites)
+    impl.composite_enter_guarded = any(m == "__enter__" and any("try:" in st for st in body) for _, m, _, body in comp_methods)
     # dynamic cross-check of the translator: the table is the run-time class table
     import linear_operator.settings as S
     import linear_operator.beta_features as B
+    bases3 = (S._feature_flag, S._value_context, S._dtype_value_context)
     rt = [n for mod in (S, B) for n, v in vars(mod).items() if isinstance(v, type) and v.__module__ == mod.__name__
-          and issubclass(v, (S._feature_flag, S._value_context, S._dtype_value_context))
-          and v not in (S._feature_flag, S._value_context, S._dtype_value_context)]
+          and issubclass(v, bases3) and v not in bases3]
     if sorted(rt) != sorted(c["name"] for c in classes):
         chk.proof_break("translator(C17Table)", f"class table differs from run time: {sorted(set(rt) ^ set(c['name'] for c in classes))}")
     for c, k in zip(classes, impl.cls):
         if c["base"] == "_feature_flag" and bool(k._default) != (c["default"] == "True"):
             chk.proof_break("translator(C17Table)", f"_default of {c['name']} differs at run time")
+    # dynamic cross-check of the body translator: the (class, method) rows are exactly the protocol methods found in the
+    # run-time class dictionaries (a method patched in at import time, or inherited from an unexpected base, shows here)
+    rows = sorted((c, m) for c, m, _, _ in methods)
+    rt_rows = sorted((k.__name__, m) for k in list(bases3) + impl.cls for m in c17_bodies.PROTOCOL if m in k.__dict__)
+    if rows != rt_rows:
+        chk.proof_break("translator(C17Bodies)", f"protocol methods differ from run time: {sorted(set(rows) ^ set(rt_rows))}")
+    for k in impl.cls:
+        if [b.__name__ for b in k.__mro__[1:-1]] != [next(c["base"] for c in classes if c["name"] == k.__name__)]:
+            chk.proof_break("translator(C17Table)", f"MRO of {k.__name__} is not [its base]: {k.__mro__}")
+    import logging
+    logger0 = (S.verbose_linalg.logger.level, len(S.verbose_linalg.logger.handlers),
+               [h.level for h in S.verbose_linalg.logger.handlers], logging.getLogger().level)
     base0 = small_computation()
     n, maxlen = (300, 30) if chk.tier == "quick" else (1500, 200)
     if histories is None:
-        histories = []
-        # templates first: the two defects fixed in the repo (must stay fixed)
-        histories.append([("new", 0, "max_cholesky_size", (5,)), ("new", 1, "max_cholesky_size", (7,)), ("enter", 1),
-                          ("enter", 0), ("exit", 0, False), ("exit", 1, False)])
-        histories.append([("new", 0, "cholesky_jitter", (None, None, 0.25)), ("enter", 0), ("exit", 0, False)])
-        histories.append([("new", 0, "cholesky_jitter", (0.5, 0.5, 0.5)), ("new", 1, "cholesky_jitter", (0.0, 0.0, None)), ("enter", 0),
-                          ("enter", 1), ("exit", 1, False), ("exit", 0, False)])
-        histories.append([("new", 0, "max_cholesky_size", (0,)), ("new", 1, "cg_tolerance", (0.0,)), ("enter", 0), ("enter", 1),
-                          ("exit", 1, True), ("exit", 0, False)])
-        histories.append([("newc", 0, "fast_computations", {"solves": False}), ("new", 1, "_fast_solves", (True,)),
-                          ("enter", 1), ("enter", 0), ("exit", 0, True), ("exit", 1, False)])
+        histories = templates(impl)
         for i in range(n):
-            histories.append(gen_history(chk.rng, impl, chk.rng.randint(3, maxlen), malformed=(i % 5 == 4)))
+            via = chk.rng.choice(["call", "call", "with", "with", "thread"])
+            histories.append((gen_history(chk.rng, impl, chk.rng.randint(3, maxlen), malformed=(i % 5 == 4)), via, None))
     all_lines, all_states, owner = ["reset"], [None], [None]
-    for hi, hist in enumerate(histories):
-        key = json.dumps(ev_json(hist))
+    for hi, (hist, via, cell) in enumerate(histories):
+        key = json.dumps([via, ev_json(hist)])
         try:
-            lines, states, fails = run_history(impl, hist)
+            lines, states, fails = run_history(impl, hist, via=via)
         except Exception as e:  # the protocol itself must never raise
             fails, lines, states = [(f"exception {type(e).__name__}: {e}", None)], [], []
+            run_history.dirty = set()
         if well_nested(hist):
             for i in range(len(impl.cls)):
+                # a member whose own __enter__ raised (`enterfail`) is outside the property's quantifier (the library's members never raise on
+                # entry; the event needs a user-replaced member): such cells are model-correspondence cells only, never a verdict
+                if i in run_history.dirty and (cell is None or cell.startswith("C17/composite-partial-enter")):
+                    continue
                 want = impl.initial[i] if impl.meta[i]["base"] == "_dtype_value_context" else impl.initial[i][:1]
                 if impl.setting_val(i) != want:
-                    fails.append((f"leak after well-nested history: {impl.meta[i]['name']} = {impl.setting_val(i)}", None))
-        nontriv = any(ev[0] == "enter" for ev in hist)
+                    fails.append((f"leak after well-nested history: {impl.meta[i]['name']} = {impl.setting_val(i)} (initially {want})", None))
+        nontriv = any(ev[0] in ("enter", "enterfail") for ev in hist)
         chk.case(key, nontrivial=nontriv)
         chk.count("histories")
+        chk.count("via:" + via)
         chk.count("events", len(hist))
         for ev in hist:
             chk.count("ev:" + ev[0])
         chk.count("well_nested" if well_nested(hist) else "not_well_nested")
         for nm in getattr(run_history, "unmodelled", []):
             chk.proof_break("translator(C17Table)", f"composite {nm} is not described by the generated table (parts/enter/exit lists)")
-        if fails:
-            small = shrink(impl, hist, lambda h: bool(spec_fails(impl, h)))
-            what = spec_fails(impl, small)
-            chk.violation(f"C17/history/{what[0][0].split(':')[0].split(' ')[0]}", what[0][0], {"history": ev_json(small)})
+        if fails and cell is not None:
+            chk.violation(cell, fails[0][0], {"history": ev_json(hist), "via": via, "strict": True})
+        elif fails:
+            small = shrink(impl, hist, lambda h: bool(spec_fails(impl, h, via)))
+            what = spec_fails(impl, small, via)
+            chk.violation(f"C17/history/{what[0][0].split(':')[0].split(' ')[0]}", what[0][0], {"history": ev_json(small), "via": via})
         all_lines += ["reset"] + lines
         all_states += [None] + states
         owner += [hi] * (1 + len(lines))
+    _drain()
     impl.reset()
+    # `value(dtype)` of per-dtype settings: all three dtypes, a tensor argument, and an unsupported dtype (RuntimeError)
+    dv_lines, dv_impl = [], []
+    for i, m in enumerate(impl.meta):
+        if m["base"] != "_dtype_value_context":
+            continue
+        a, b, d = impl.raw(i)
+        dv_lines.append(f"init {i} {impl.code(a)} {impl.code(b)} {impl.code(d)}")
+        dv_impl.append(None)
+        for dn, dt in enumerate([torch.float, torch.double, torch.half, torch.int32, torch.bfloat16]):
+            for form in ("dtype", "tensor"):
+                try:
+                    got = impl.code(impl.cls[i].value(dt if form == "dtype" else torch.zeros(1, dtype=dt)))
+                except RuntimeError:
+                    got = "raise"
+                want = impl.code((a, b, d)[dn]) if dn < 3 else "raise"
+                chk.case(f"value-dtype {m['name']} {dt} {form}", nontrivial=True, sample=False)
+                if got != want:
+                    chk.violation(f"C17/value-dtype/{m['name']}/{str(dt).split('.')[-1]}/{form}", f"value({dt}) = {got}, want {want}", None)
+                dv_lines.append(f"dvalue {i} {dn}")
+                dv_impl.append(got)
+    all_lines += ["reset"] + dv_lines
+    all_states += [None] + dv_impl
+    owner += [None] * (1 + len(dv_lines))
     outs = chk.run_driver("C17", all_lines)
     if outs is not None:
         bad = None
@@ -458,12 +736,81 @@ def run(chk, histories=None):
                 chk.traces_validated += 1
         if bad is not None:
             hi = owner[bad]
-            chk.corr_break(f"C17/correspondence/history{hi}", f"line `{all_lines[bad]}`: model {outs[bad][:200]} impl {all_states[bad][:200]}",
-                           {"history": ev_json(histories[hi]) if hi is not None else None})
+            cellname = f"C17/correspondence/history{hi}" if hi is not None else "C17/correspondence/value-dtype"
+            if hi is not None and histories[hi][2]:
+                cellname = histories[hi][2] + "/correspondence"
+            chk.corr_break(cellname, f"line `{all_lines[bad]}`: model {outs[bad][:200]} impl {all_states[bad][:200]}",
+                           {"history": ev_json(histories[hi][0]), "via": histories[hi][1]} if hi is not None else None)
+    for kind, msg in sorted(impl.reader_fails.items()):
+        chk.violation(f"C17/readers/{kind}", msg, None)
     base1 = small_computation()
     if not torch.equal(base0, base1):
         chk.violation("C17/computation-outside-block", "a computation under default settings changed after the histories", None)
     chk.case("small_computation_before_after", nontrivial=True, sample=False)
+    # results of computations OUTSIDE a block are unaffected by it: run the computation inside blocks of settings that do
+    # change its code path (CG / Lanczos instead of Cholesky, jitter, dtypes, probe cache), leave the block normally or by
+    # an exception raised in its body, and recompute outside: bit-for-bit the default result
+    import contextlib
+    blocks = [("max_cholesky_size=0", lambda: [S.max_cholesky_size(0)]),
+              ("fast_computations=off", lambda: [S.fast_computations(False, False, False)]),
+              ("cholesky_jitter=1e-2", lambda: [S.cholesky_jitter(1e-2, 1e-2, 1e-2)]),
+              ("cg-path-coarse", lambda: [S.max_cholesky_size(0), S.cg_tolerance(10.0), S.max_cg_iterations(4), S.num_trace_samples(2),
+                                          S.max_lanczos_quadrature_iterations(2), S.max_preconditioner_size(0)]),
+              ("deterministic_probes+cg", lambda: [S.deterministic_probes(True), S.max_cholesky_size(0), S.skip_logdet_forward(True)]),
+              ("linalg_dtypes=float+debug=off", lambda: [S.linalg_dtypes(torch.float), S.debug(False), S.verbose_linalg(False)])]
+    for bname, mk in blocks:
+        for exc in (False, True):
+            inside = None
+            try:
+                with contextlib.ExitStack() as st:
+                    for m in mk():
+                        st.enter_context(m)
+                    inside = small_computation()
+                    if exc:
+                        raise ValueError("boom")
+            except Exception:  # ours, or the library refusing the coarse settings: either way an exceptional exit
+                pass
+            outside = small_computation()
+            chk.case(f"computation-outside {bname} exc={exc}", nontrivial=True, sample=False)
+            if inside is not None and not torch.equal(inside, base0):
+                chk.count("computation_inside_block_differs")
+            if not torch.equal(outside, base0) or S.deterministic_probes.probe_vectors is not None:
+                chk.violation(f"C17/computation-outside-block/{bname}/exc={int(exc)}",
+                              f"after the block the default computation gives {outside.tolist()} instead of {base0.tolist()}"
+                              f" (probe cache {S.deterministic_probes.probe_vectors is not None})", None)
+    # verbose_linalg: the contexts only toggle the flag; the logger (level, handlers) is never touched
+    with S.verbose_linalg(True):
+        inside = (S.verbose_linalg.logger.level, len(S.verbose_linalg.logger.handlers),
+                  [h.level for h in S.verbose_linalg.logger.handlers], logging.getLogger().level)
+    logger1 = (S.verbose_linalg.logger.level, len(S.verbose_linalg.logger.handlers),
+               [h.level for h in S.verbose_linalg.logger.handlers], logging.getLogger().level)
+    chk.case("verbose_linalg_logger", nontrivial=True, sample=False)
+    if not (logger0 == inside == logger1) or S.verbose_linalg.on():
+        chk.violation("C17/verbose_linalg/logger-untouched", f"logger state {logger0} -> inside {inside} -> after {logger1}", None)
+    # no thread-locals: a block entered on a worker thread is visible on the main thread while it is open, and gone after
+    import threading
+    e1, e2, seen = threading.Event(), threading.Event(), {}
+
+    def worker():
+        with S.max_cholesky_size(123), S.cholesky_jitter(half_value=0.125), S.fast_computations(solves=False):
+            e1.set()
+            e2.wait(10)
+    th = threading.Thread(target=worker)
+    th.start()
+    e1.wait(10)
+    seen["inside"] = (S.max_cholesky_size.value(), S.cholesky_jitter.value(torch.half), S.fast_computations.solves.on())
+    e2.set()
+    th.join()
+    seen["after"] = (S.max_cholesky_size.value(), S.cholesky_jitter.value(torch.half), S.fast_computations.solves.on())
+    chk.case("threads_process_global", nontrivial=True, sample=False)
+    i_mcs, i_cj, i_fs = impl.idx["max_cholesky_size"], impl.idx["cholesky_jitter"], impl.idx["_fast_solves"]
+    want_after = (impl.initial[i_mcs][0], impl.initial[i_cj][2], True)
+    if seen["after"] != want_after:
+        chk.violation("C17/threads/restored-after-worker-block", f"after the worker's block: {seen['after']} want {want_after}", None)
+    if seen["inside"] != (123, 0.125, False):
+        chk.corr_break("C17/threads/process-global", f"main thread saw {seen['inside']} while a worker thread was inside the block: the "
+                       "settings are no longer process-global class attributes (the model treats threads as interleavings)", None)
+    impl.reset()
 
 
 def _unj(x):
@@ -474,6 +821,8 @@ def replay(chk, payload):
     import ast as _ast
     classes, composites = c17_settings.generate()
     impl = Impl(classes, composites)
+    impl.composite_enter_guarded = any(m == "__enter__" and any("try:" in st for st in body)
+                                       for _, m, _, body in c17_bodies.generate()[2])
     hist = payload.get("payload", {}).get("history")
     if not hist:
         print("replay names broken obligations only:", json.dumps(payload.get("payload"))[:2000])
@@ -483,10 +832,22 @@ def replay(chk, payload):
         ev = list(ev)
         if ev[0] == "new":
             ev[3] = tuple(_unj(x) for x in ev[3])
+        if ev[0] == "set":
+            ev[2] = tuple(_unj(x) for x in ev[2])
         if ev[0] == "newc":
             ev[3] = {k: _unj(v) for k, v in ev[3].items()}
         conv.append(tuple(ev))
-    fails = spec_fails(impl, conv)
+    via = payload.get("payload", {}).get("via", "call")
+    fails = spec_fails(impl, conv, via)
+    if payload.get("payload", {}).get("strict"):
+        _, _, fails = run_history(impl, conv, via=via)
+        fails = list(fails)
+        for i in range(len(impl.cls)):
+            want = impl.initial[i] if impl.meta[i]["base"] == "_dtype_value_context" else impl.initial[i][:1]
+            if impl.setting_val(i) != want:
+                fails.append((f"leak: {impl.meta[i]['name']} = {impl.setting_val(i)} (initially {want})", None))
+        _drain()
+        impl.reset()
     for f in fails:
-        chk.violation("C17/replay", f[0], {"history": hist})
+        chk.violation(payload.get("cell") or "C17/replay", f[0], {"history": hist, "via": via})
     chk.case(json.dumps(hist))
